@@ -45,3 +45,7 @@ def _sc(vc, lower, upper, i):
 
 from contracts.mcmc_gibbs import gibbs_take_step
 contract("C04", "gibbs_take_step", native=False)(gibbs_take_step)
+
+
+from contracts.mcmc_pca import pca_take_step
+contract("C04", "pca_take_step", native=False)(pca_take_step)
